@@ -1,4 +1,5 @@
 -- @component conv convExpected
+-- @component convx convExpected
 import Chewing.Model.ConversionSimple
 import Chewing.Driver.Util
 /-!
